@@ -424,6 +424,13 @@ static bool checkHull(HullCtx& h, const Manifold& hull) {
   std::string base = cl.fam.substr(0, cl.fam.find("+dups"));
   const std::string fam = (cl.regime == 2 ? "degen:" : cl.regime == 1 ? "thin:" : "thick:") + h.via + ":" + base;
   c.count("hulls_observed");
+  if (const char* dump = getenv("C16_DUMP")) {  // debugging aid for replays: all input points, exact
+    FILE* f = fopen(dump, "w");
+    if (f) {
+      for (auto& q : in) fprintf(f, "%a %a %a\n", q.x, q.y, q.z);
+      fclose(f);
+    }
+  }
   Manifold::Error st = hull.Status();
   bool empty = hull.IsEmpty();
   if (cl.regime == 2) {
@@ -504,6 +511,7 @@ static bool checkHull(HullCtx& h, const Manifold& hull) {
   auto thr = [&](const Face& f, V3 p, LD k = 1) { return k * epsHull * (1 + 1e-6L) + 32 * kU * scale * (1 + vo::norm(p - f.v0) / f.alt); };
   // (4) every edge convex: the opposite vertex of the neighbour is on or below this face's plane
   {
+    int edgeConfirmBudget = 40;
     struct E { uint64_t key; uint32_t tri, opp; };
     std::vector<E> es;
     es.reserve(s.t.size() * 3);
@@ -522,6 +530,21 @@ static bool checkHull(HullCtx& h, const Manifold& hull) {
       c.count("edges_convexity_checked");
       if (d > thr(f, w)) c.count(d <= 2 * epsHull ? "advisory_edges_concave_by_1_to_2_eps_hull" : "advisory_edges_concave_by_2_to_10_eps_hull_or_more");
       if (d > thr(f, w, kSlack)) {
+        // confirm on the solid: across a really reflex edge the segment between the two wing tips leaves the
+        // solid; across a zero-thickness fold inside a coplanar facet (flipped coplanar triangle) it does not
+        V3 u = s.v[e.opp];
+        bool leaves = false;
+        if (edgeConfirmBudget-- > 0) {
+          for (LD t : {0.5L, 0.25L, 0.75L, 0.1L, 0.9L}) {
+            V3 q = u + (w - u) * t;
+            vo::Cls k = vo::Classify(s, q);
+            if (k.integral && k.w == 0 && vo::DistToSurface(s, q) > thr(f, q, kSlack)) { leaves = true; break; }
+          }
+        }
+        if (!leaves) {
+          c.count("edges_reflex_by_plane_but_flat_fold_on_solid_not_judged");
+          continue;
+        }
         c.violation("hull:concave-edge:" + fam,
                     hullDetail(h, "neighbouring face's opposite vertex lies above this face's plane by more than 10 eps_hull",
                                vh::J().d("above", (double)d).d("eps_hull", (double)epsHull).d("threshold", (double)thr(f, w, kSlack)).u("tri", e.tri)
@@ -669,13 +692,6 @@ static void hullCase(vh::Ctx& c) {
     Cloud cl = r.chance(0.12) ? makeThinCloud(r, n) : makeThickCloud(r, n);
     HullCtx h{c, cl, "points", ""};
     c.site("Hull(points):" + cl.fam);
-    if (const char* dump = getenv("C16_DUMP")) {  // debugging aid for replays: all input points, exact
-      FILE* f = fopen(dump, "w");
-      if (f) {
-        for (auto& q : cl.p) fprintf(f, "%a %a %a\n", q.x, q.y, q.z);
-        fclose(f);
-      }
-    }
     Manifold hull = Manifold::Hull(cl.p);
     checkHull(h, hull);
     if (c.idx % 211 == 0)
@@ -710,17 +726,27 @@ static void hullCase(vh::Ctx& c) {
   std::string desc;
   std::vector<Manifold> ms;
   int count = u < 0.86 ? 1 : r.range(2, 4);
+  const bool withRefinedCopy = u >= 0.86 && r.chance(0.35);
   for (int i = 0; i < count; i++) {
     if (i) desc += " ; ";
     ms.push_back(leaf(desc));
   }
+  if (withRefinedCopy) {
+    // a solid together with its own refined copy: exact duplicates of every vertex plus many points exactly
+    // collinear on its edges and coplanar on its faces
+    double len = r.uni(0.15, 0.6);
+    c.site("RefineToLength(for Hull input)");
+    ms.push_back(ms[0].RefineToLength(len));
+    desc += " ; #0.RefineToLength(" + f17(len) + ")";
+  }
+  count = (int)ms.size();
   for (auto& m : ms) {
     if (m.Status() != Manifold::Error::NoError || m.IsEmpty()) { c.count("manifold_input_unusable"); return; }
     MeshGL64 g = m.GetMeshGL64();
     for (size_t i = 0; i < g.vertProperties.size(); i += g.numProp)
       cl.p.push_back({g.vertProperties[i], g.vertProperties[i + 1], g.vertProperties[i + 2]});
   }
-  cl.fam = count == 1 ? "one-manifold" : "several-manifolds";
+  cl.fam = count == 1 ? "one-manifold" : withRefinedCopy ? "manifolds+refined-copy" : "several-manifolds";
   cl.xf = "";
   HullCtx h{c, cl, count == 1 ? "manifold" : "manifolds", desc};
   Manifold hull;
